@@ -147,6 +147,7 @@ type machB struct {
 
 	accepted, rejectedConflict, rejectedOther, rejectedCapacity int
 	removedMultiKey, removedAny, blocks, replaced              int
+	fullCleanups, fullWithInputless                             int
 	slotsHit                                                    map[string]bool
 	typesAccepted                                               map[string]int
 }
@@ -226,7 +227,8 @@ func (m *machB) genSpec() txSpec {
 		"appropriation", "rectify", "realWithdraw", "dposV2RealWithdraw",
 		"withdraw", "withdraw", "withdraw", "returnSideDeposit", "sideChainPow", "nftDestroy",
 		"returnDeposit", "returnCRDeposit", "exchangeVotes", "voting", "returnVotes", "createNFT", "claimReward",
-		"votesRealWithdraw", "revertToDPOS", "proposalResult", "inactiveArbitrators", "nextTurn",
+		"votesRealWithdraw", "revertToDPOS", "proposalResult", "inactiveArbitrators", "nextTurn", "nextTurn",
+		"sideChainPowNew", "updateVersion",
 	}).Draw(t, "kind")
 	sp := txSpec{label: kind}
 	switch kind {
@@ -343,6 +345,15 @@ func (m *machB) genSpec() txSpec {
 	case "sideChainPow":
 		sp.typ = ctypes.SideChainPow
 		sp.pl = &payload.SideChainPow{SideBlockHash: hash("sblock"), SideGenesisHash: hash("sgenesis"), BlockHeight: 5, Signature: sig}
+	case "sideChainPowNew":
+		// the input-less form (IsNewSideChainPowTx): removed by hash in cleanTransactions
+		sp.typ = ctypes.SideChainPow
+		sp.pl = &payload.SideChainPow{SideBlockHash: hash("sblock"), SideGenesisHash: hash("sgenesis"), BlockHeight: 5, Signature: sig}
+		sp.noIn = true
+	case "updateVersion":
+		sp.typ = ctypes.UpdateVersion
+		sp.pl = &payload.UpdateVersion{StartHeight: uint32(rapid.IntRange(1, 3).Draw(t, "uvs")), EndHeight: 10}
+		sp.noIn = true
 	case "nftDestroy":
 		ids := hashSet("nft")
 		var addrs []common.Uint168
@@ -409,6 +420,14 @@ func (m *machB) genSpec() txSpec {
 		sp.noIn = true
 	}
 	return sp
+}
+
+// copyOf is the separately deserialized copy of a pooled transaction a block
+// from the network carries; block validation leaves the same fee in it.
+func (m *machB) copyOf(tx interfaces.Transaction) interfaces.Transaction {
+	c := wireCopy(tx)
+	c.SetFee(m.fee[tx.Hash()])
+	return c
 }
 
 func stakeAddrOf(k *node.Key) common.Uint168 {
@@ -562,6 +581,11 @@ func runB(t *rapid.T, w *worldB) *machB {
 			}
 			tx := pooled[rapid.IntRange(0, len(pooled)-1).Draw(t, "which")]
 			nk := len(flatKeys(m.pool, tx))
+			how := "pool-object"
+			if rapid.Bool().Draw(t, "wireCopy") {
+				tx, how = m.copyOf(tx), "wire-copy"
+			}
+			m.op = "remove/" + how
 			m.pool.VerifRemovePooled(tx)
 			m.removedAny++
 			if nk >= 2 {
@@ -595,6 +619,7 @@ func runB(t *rapid.T, w *worldB) *machB {
 			// a block assembled from pooled transactions only (the local miner's block)
 			m.op = "block"
 			var txs []interfaces.Transaction
+			copies := 0
 			for _, tx := range sortedPoolOf(m.pool) {
 				// Input-less special transactions leave the pool only through the
 				// follow-up CheckAndCleanAllTransactions (their hash is then in the
@@ -604,6 +629,12 @@ func runB(t *rapid.T, w *worldB) *machB {
 					continue
 				}
 				if rapid.IntRange(0, 9).Draw(t, "include") < 5 {
+					// the local miner packs the pooled objects; a block from the network
+					// carries separately deserialized copies
+					if rapid.Bool().Draw(t, "wireCopy") {
+						tx = m.copyOf(tx)
+						copies++
+					}
 					txs = append(txs, tx)
 				}
 			}
@@ -621,7 +652,61 @@ func runB(t *rapid.T, w *worldB) *machB {
 				}
 			}
 			m.blocks++
-			m.log("CleanSubmittedTransactions(%d pooled txs): %d -> %d pooled", len(txs), len(before), len(after))
+			m.log("CleanSubmittedTransactions(%d pooled txs, %d as wire copies): %d -> %d pooled", len(txs), copies, len(before), len(after))
+			m.verdict()
+		},
+		"minedFull": func(t *rapid.T) {
+			// The node's whole post-block sequence (netsync): CleanSubmittedTransactions(block)
+			// then CheckAndCleanAllTransactions, judged only after both.  The block carries
+			// any pooled transactions, input-less special ones included, as wire copies or
+			// as the pooled objects.  B's transactions are not chain-valid, so the second
+			// step removes (nearly) everything that is left: what must hold afterwards is
+			// that nothing of the removed transactions stays behind in any index.
+			m.op = "block+recheck"
+			var txs []interfaces.Transaction
+			copies, inputless := 0, 0
+			for _, tx := range sortedPoolOf(m.pool) {
+				if rapid.IntRange(0, 9).Draw(t, "include") < 6 {
+					if len(tx.Inputs()) == 0 {
+						inputless++
+					}
+					if rapid.IntRange(0, 3).Draw(t, "wireCopy") != 0 {
+						tx = m.copyOf(tx)
+						copies++
+					}
+					txs = append(txs, tx)
+				}
+			}
+			cb := m.w.n.NewCoinbase(99, 0, uint64(len(m.ops)))
+			b := &types.Block{Header: ctypes.Header{Height: 99}, Transactions: append([]interfaces.Transaction{cb}, txs...)}
+			before := m.pool.VerifSnapshot().TxList
+			m.pool.CleanSubmittedTransactions(b)
+			mid := len(m.pool.VerifSnapshot().TxList)
+			panicked, val, frame := vk.Catch(func() { m.pool.CheckAndCleanAllTransactions() })
+			if panicked {
+				// a chain checker panicking on a transaction that never passed admission is
+				// C03's subject; the pool mutex stays locked, so this case ends here
+				m.dead = true
+				vk.Count("B/recheck-panicked/"+frame, 1)
+				m.log("CheckAndCleanAllTransactions panicked in %s: %v", frame, val)
+				return
+			}
+			after := m.pool.VerifSnapshot().TxList
+			for h, o := range before {
+				if _, ok := after[h]; !ok {
+					m.removedAny++
+					if len(flatKeys(m.pool, o)) >= 2 {
+						m.removedMultiKey++
+					}
+				}
+			}
+			m.blocks++
+			m.fullCleanups++
+			if inputless > 0 {
+				m.fullWithInputless++
+			}
+			m.log("CleanSubmittedTransactions(%d pooled txs, %d input-less, %d as wire copies) + CheckAndCleanAllTransactions: %d -> %d -> %d pooled",
+				len(txs), inputless, copies, len(before), mid, len(after))
 			m.verdict()
 		},
 	}
@@ -689,6 +774,12 @@ func TestPoolIndexAllSlots(t *testing.T) {
 		}
 		if m.replaced > 0 {
 			vk.Class("B/insert-evicted-another")
+		}
+		if m.fullCleanups > 0 {
+			vk.Class("B/full-post-block-sequence")
+		}
+		if m.fullWithInputless > 0 {
+			vk.Class("B/full-post-block-sequence-with-input-less-special-tx")
 		}
 		for s := range m.slotsHit {
 			slots[s]++
